@@ -522,6 +522,9 @@ def run(ctx: Check):
     for k, v in cases.items():
         ctx.count(f"configs_{k}", len({c.cfg for c in v}))
     ctx.count("onehot_tag_sets", len({c.cfg for c in cases["tagged"] if not isinstance(_sim(c.desc), Exception) and _sim(c.desc).dut.one_hot}))
+    f4 = replay_witness({"desc": {"component": "HwExpHistogram", "n": 1, "sw": 3, "rw": 4, "ways": 1},
+                         "ops": ["cyc s=0", "cyc s=1", "cyc s=5", "cyc s=-"]})
+    ctx.count("f4_witness_still_fails_on_impl", int(bool(f4)))  # informational; never an alarm here
     ctx.note("HwExpHistogram(bucket_count=1) is excluded from generation (finding F4: the only bucket counts zero samples only); "
              "witness: desc={component:HwExpHistogram,n:1,sw:3,rw:4,ways:1}, ops=[cyc s=0, cyc s=1, cyc s=5, cyc s=-]")
 
